@@ -26,7 +26,9 @@ func C07(c *core.Ctx) {
 		"(data sends carry a fresh buffer of length n with n != 0 known); (P6) the heartbeat handler reaches its response on every path with no " +
 		"state lookup in between; (P8) every attribute list handed to go-gtp5gnl that can contain a nested attribute of datagram-decided size " +
 		"(one attribute per received IE, or a payload-proportional byte string) first passes a length check that rejects anything the 16-bit netlink " +
-		"attribute length cannot hold — go-nl wraps the length and panics in Attr.Encode otherwise; (P7) messages end exactly the sessions they address (re-association resets only the found node; rules shared with C05 R3)."
+		"attribute length cannot hold — go-nl wraps the length and panics in Attr.Encode otherwise; (P9) a decodable request that is not a " +
+		"retransmission reaches the dispatcher whatever the server's load or stored state: the loop gives up on it only for a parse error, the " +
+		"request/response routing, the transaction lookup and the duplicate verdict; (P7) messages end exactly the sessions they address (re-association resets only the found node; rules shared with C05 R3)."
 	c.Undec = []string{"panics inside dependencies (go-pfcp IE/message parsing, go-gtp5gnl, go-nl, logrus): library code is not analysed — the properties file itself reports two such crashes",
 		"resource exhaustion (memory, sockets)", "kernel-originated netlink input (buffnetlink decoders run on the mux goroutine, outside the datagram path)"}
 	c.Assume = []string{"Go compiler prove pass is sound", "net.UDPConn.ReadFrom returns 0 <= n", "call graph over-approximates", "library functions do not panic on the values go-upf hands them"}
@@ -69,6 +71,10 @@ func C07(c *core.Ctx) {
 	c07Loop(c)
 	c07Heartbeat(c)
 	c07AttrLen(c, fns)
+	// P9: "stop serving" also means dropping what should be served: a decodable, new request always reaches its handler
+	if a := getTxAnchors(c, "P9"); a.ok {
+		requestsServed(c, "P9", a)
+	}
 	// P7: sessions not addressed by a message stay intact — re-association resets exactly the found node, session
 	// deletion and the SEID-0 response delete exactly the addressed session (shared with C01 R6 / C05 R3)
 	c01EndPaths(c, "P7", false)
